@@ -712,8 +712,42 @@ pub fn decorate(cfg: &Cfg, rng: &mut Rng, opts: DecoOpts) -> Grammar {
 }
 
 /// One workload grammar for Engine B.
+/// Adds a nonterminal that derives no token sequence (no base case) and references it from
+/// an existing nonterminal: C03's side clause (canonical LR(1) stopping index) applies.
+pub fn add_unproductive(c: &mut Cfg, rng: &mut Rng) {
+    if c.terms.is_empty() || c.nts.is_empty() {
+        return;
+    }
+    let u = c.nt("Abyss");
+    let t1 = rng.below(c.terms.len());
+    match rng.below(3) {
+        0 => c.rule(u, vec![T(t1), N(u)]),
+        1 => {
+            let t2 = c.term("Pit");
+            c.rule(u, vec![T(t2), N(u), T(t1)]);
+        }
+        _ => {
+            let u2 = c.nt("Chasm");
+            let t2 = c.term("Pit");
+            c.rule(u, vec![T(t2), N(u2)]);
+            c.rule(u2, vec![T(t1), N(u)]);
+        }
+    }
+    let host = rng.below(c.nts.len().saturating_sub(1).max(1));
+    let intro = c.term("Descend");
+    if rng.chance(1, 2) {
+        c.rule(host, vec![T(intro), N(u)]);
+    } else {
+        let t3 = rng.below(c.terms.len());
+        c.rule(host, vec![T(intro), N(u), T(t3)]);
+    }
+}
+
 pub fn workload_grammar(rng: &mut Rng) -> Grammar {
-    let cfg = accepted_family(rng);
+    let mut cfg = accepted_family(rng);
+    if rng.chance(1, 6) {
+        add_unproductive(&mut cfg, rng);
+    }
     let mut g = decorate(&cfg, rng, DecoOpts::default());
     // A user identifier `Eof` makes the emitted module fail to compile on the pinned tree
     // (the template hard-codes `::Eof` in one place; that is C05's subject, see DESIGN section 9),
